@@ -269,6 +269,11 @@ func c09(c *wk.Ctx) {
 			if k == 1 {
 				sc = rpcScenario{Callers: 2, PerCaller: 2, Kinds: []string{"vector-object", "bool"}, Batch: 2, PContainer: 1, PGzipRes: 1, Delays: map[string]int{}}
 			}
+			if k == 9 || (!c.Quick() && k == 10) {
+				// a crowd: hundreds of goroutines calling at once (more than any internal limit on requests in flight a
+				// client might have), answered in large batches
+				sc = rpcScenario{Callers: map[int]int{9: 300, 10: 1200}[k], PerCaller: 1, Kinds: rpcKinds, Batch: 64, PContainer: 0.5, PGzipRes: 0.2, Delays: map[string]int{}}
+			}
 			if k == 5 || k == 6 || (!c.Quick() && (k == 7 || k == 8)) {
 				// a slow caller: held for more than a second (thorough: 3 s and 11 s) between its socket write and its
 				// wait for the answer, which the server has long sent — the answer must still be there for it
